@@ -260,6 +260,11 @@ def run(facts, tier):
     import registry
     registry.rule(facts, res, "R12-6")
     registry.dangling_rule(facts, res, "R12-8")
+    # previous_sibling / next_sibling find the node in the child list by its order key: the keys have to be the delegated
+    # order of each node kind (R06-3) and cached keys have to be invalidated when the order vector shifts (C14-8)
+    from props import c06, c14
+    c06.r06_3(facts, res, "R12-9")
+    c14.c14_8(facts, res, "R12-10")
     r12_7(facts, res)
     import staleidx
     staleidx.rule(facts, res, "R12-5", lambda f: f["crate"] in ("xml_info", "xml_dom"), floor=7)
